@@ -3,6 +3,7 @@
   harness/cmd/concrun (with `strategy replay …`), same canonical event log.
 -/
 import Gobptree.Conc
+import Gobptree.ConcRank
 import Gobptree.Driver
 
 namespace Gobptree.ConcDriver
@@ -56,6 +57,16 @@ def applyPre (P : Params DKey) (t : Tree DKey DVal) (l : String) : Option (Tree 
     match t.update P k f with | .ok (t', _) => some t' | .error _ => none
   | _ => none
 
+/-- `Config.run`, also counting the configurations passed through and those among them in
+    which some waiting thread is not ranked (`rankedB`, the executable `Ranked levelRank`) -/
+def runChecked (c : Config DKey DVal) (states bad : Nat) : List Nat → Config DKey DVal × Option Nat × Nat × Nat
+  | [] => (c, none, states + 1, if rankedB c then bad else bad + 1)
+  | t :: ts =>
+    let bad := if rankedB c then bad else bad + 1
+    match c.step t with
+    | none => (c, some t, states + 1, bad)
+    | some c' => runChecked c' (states + 1) bad ts
+
 def runCase (c : Case) : List String :=
   match paramsFor c.ty c.order.toNat with
   | none => ["error bad type"]
@@ -69,7 +80,7 @@ def runCase (c : Case) : List String :=
       | none => ["error program"]
       | some progs =>
         let cfg := Config.init P tree progs
-        let (cfg', stuck) := cfg.run c.sched
+        let (cfg', stuck, nstates, nbad) := runChecked cfg 0 0 c.sched
         let evs := cfg'.log.reverse
         -- canonical mutex names by first acquisition
         let names : List Lk := evs.foldl (fun acc e => match e with
@@ -96,7 +107,7 @@ def runCase (c : Case) : List String :=
               (if cfg'.enabledSet.isEmpty then ["deadlock"] else ["incomplete " ++ showEnabled cfg'.enabledSet])
             else if cfg'.dead then []
             else ["final " ++ showTree cfg'.tree]
-        lines ++ tail
+        lines ++ ["# ranked " ++ toString nstates ++ " " ++ toString nbad] ++ tail
 
 partial def loop (h : IO.FS.Stream) (out : IO.FS.Stream) (cur : Case) (n : Nat) : IO Unit := do
   let line ← h.getLine
